@@ -359,6 +359,7 @@ class CClient:
         self.caught_up = 0
         self.killed = False
         self.floors = []
+        self.dups = 0                 # frames logged with a sequence number seen before
 
     def send(self, line):
         try:
@@ -368,7 +369,7 @@ class CClient:
 
     def feed(self):
         n = 0
-        while True:
+        for _ in range(64):            # bounded: a client flooded by a broken daemon must not hold the controller
             try:
                 d = os.read(self.fd, 1 << 16)
             except (BlockingIOError, InterruptedError):
@@ -399,6 +400,8 @@ class CClient:
                     s = seq_of(ev["ts"])
                 except Exception:
                     s = -1
+                if s in self.seqs:
+                    self.dups += 1
                 self.seqs.add(s)
                 if s > self.max_seq:
                     self.max_seq = s
@@ -479,6 +482,17 @@ class Rig:
             f.write("leak:vbi_proxy_msg_get_local_socket_addr\n")
         self.denv = dict(self.env)
         self.denv["LSAN_OPTIONS"] = self.env["LSAN_OPTIONS"] + ":suppressions=%s:print_suppressions=0" % self.supp
+        # The daemon ends its acquisition thread with pthread_cancel().  Forced unwinding abandons the
+        # instrumented frames between the thread function and the cancellation point without running
+        # their epilogues, so their red zones stay poisoned on the thread's stack, and libsanitizer
+        # (gcc 12) then reports its *own* access to that stale shadow when glibc ends the thread
+        # (__asan_handle_no_return -> PlatformUnpoisonStacks -> intercepted sigaltstack writing its
+        # local result: "stack-buffer-underflow in __interceptor_sigaltstack").  With the fake stack
+        # (detect_stack_use_after_return=1) address-taken locals and their red zones live in
+        # heap-like fake frames, the real thread stack is never poisoned and abandoned fake frames
+        # are garbage collected: the cause is gone, nothing is filtered (design-notes/C18.md).
+        self.denv["ASAN_OPTIONS"] = self.env["ASAN_OPTIONS"].replace("detect_stack_use_after_return=0",
+                                                                     "detect_stack_use_after_return=1")
         self._tr_off = 0
         self._tr_buf = b""
         self.tr_last_L = None
@@ -967,8 +981,19 @@ def gen_c18_schedule(seed, index, tier):
         ops.append({"op": "svc", "c": big, "reset": 1, "svc": 0x41f, "strict": 0})
         ops.append({"op": "stall", "c": big})
         stalled.add(big)
-        if rng.random() < 0.5:
+        r = rng.random()
+        if r < 0.6:
+            # a second subscriber of (nearly) everything stalls at the same time: both sockets fill at
+            # about the same frame, then both read pointers sit on the queue head while it is released by force
+            big2 = some(lambda x: x not in stalled)
+            if big2 is not None:
+                ops.append({"op": "svc", "c": big2, "reset": 1, "svc": rng.choice([0x41f, 0x41f, 0x1f, 0x403]), "strict": 0})
+                ops.append({"op": "stall", "c": big2})
+                stalled.add(big2)
+        elif r < 0.8:
             stall()
+        if len(live) - len(stalled) < 1:
+            connect()                # somebody has to keep up, else nothing clocks the device in lock-step
         while budget[0] > 40:
             ticks(10, 40)
             r = rng.random()
@@ -1072,6 +1097,10 @@ class C18Controller:
         self.last_op = "start"
         self.slow_losses = 0
         self.aborted = None
+        self.last_ok_tick = -1     # newest lock-step frame which every client meant to keep up has logged
+        self.blocked = None        # a watchdog expired while the daemon was alive: where
+        self.op_index = -1
+        self.daemon_died = False
 
     # -- helpers ------------------------------------------------------------
     def readers(self):
@@ -1094,6 +1123,15 @@ class C18Controller:
         self.rig.trace_tail()
         is_open = self.rig.tr_opens - self.rig.tr_closes
         u = self.union()
+        if (u != 0) != (is_open == 1):
+            # Before a verdict: two round trips through the daemon's main loop.  A daemon that is
+            # going down (abort / sanitizer report in progress) ends the schedule with its own
+            # finding (DaemonDied) instead of a knock-on device violation; a live one has by then
+            # processed every disconnect the controller made.
+            self.rig.barrier()
+            self.rig.trace_tail()
+            is_open = self.rig.tr_opens - self.rig.tr_closes
+            u = self.union()
         self.log("devcheck", where=where, union=u, open=is_open, opens=self.rig.tr_opens)
         if u != 0 and is_open != 1:
             self.out.violation("model:C18:device-not-open",
@@ -1108,10 +1146,20 @@ class C18Controller:
     def extra(self):
         return {"schedule": self.sched}
 
+    def wait(self, pred, what, need=None, soft=None):
+        """Rig.wait, but a client drowning in repeated frames ends the schedule (the monitor
+        reports the duplicates) instead of the controller waiting on a daemon that never stops sending"""
+        def guarded():
+            for c in self.procs:
+                if c.dups > 200:
+                    raise AbortSchedule("client %s keeps receiving frames it already has (%d repeats)" % (c.name, c.dups))
+            return pred()
+        return self.rig.wait(guarded, what, need, soft)
+
     def cmd(self, c, line, ack):
         n0 = c.n(ack)
         c.send(line)
-        self.rig.wait(lambda: c.n(ack) > n0, "%s of client %s" % (ack, c.name), [c])
+        self.wait(lambda: c.n(ack) > n0, "%s of client %s" % (ack, c.name), [c])
         for ev in reversed(c.events):
             if ev.get("ev") == ack:
                 return ev
@@ -1276,21 +1324,23 @@ class C18Controller:
         if not exp:
             # nobody keeps up (all subscribers are stalled): still wait until the device has
             # consumed the tick, so that no tick byte is left over for a later device open
-            self.rig.wait(lambda: (self.rig.trace_tail() or self.rig.tr_queued >= seq),
+            self.wait(lambda: (self.rig.trace_tail() or self.rig.tr_queued >= seq),
                           "the device to deliver frame %d to the daemon" % seq)
             return
         try:
-            ok = self.rig.wait(done, "frame %d at %s" % (seq, ",".join(c.name for c in exp)), soft=SLOW_AFTER)
+            ok = self.wait(done, "frame %d at %s" % (seq, ",".join(c.name for c in exp)), soft=SLOW_AFTER)
         except ClientGone:
             ok = done()
         if ok:
+            if all(c.max_seq >= seq for c in exp):
+                self.last_ok_tick = seq
             return
         # slow path: decide without the clock.  Once the device has handed the frame to
         # the daemon and two probe round trips are through, every queued frame has been
         # written to every reader's socket; a reader that drains its socket and still
         # lacks the frame has lost it.
         self.out.count("slow_path_checks")
-        self.rig.wait(lambda: (self.rig.trace_tail() or self.rig.tr_queued >= seq),
+        self.wait(lambda: (self.rig.trace_tail() or self.rig.tr_queued >= seq),
                       "the device to deliver frame %d to the daemon" % seq)
         self.rig.barrier()
         for c in exp:
@@ -1314,7 +1364,7 @@ class C18Controller:
             self.signature("F%d" % min(b, 9))
             self.rig.pump(0)
         last = self.rig.ticks - 1
-        self.rig.wait(lambda: (self.rig.trace_tail() or self.rig.tr_queued >= last),
+        self.wait(lambda: (self.rig.trace_tail() or self.rig.tr_queued >= last),
                       "the device to deliver frame %d to the daemon" % last)
         for c in self.expectation():
             self.settle(c)
@@ -1332,6 +1382,7 @@ class C18Controller:
             try:
                 rig.start()
                 for i, op in enumerate(sched["ops"]):
+                    self.op_index = i
                     fn = getattr(self, "op_" + op["op"])
                     fn(op)
                     if op["op"] != "tick":
@@ -1351,6 +1402,10 @@ class C18Controller:
             except Inconclusive as e:
                 self.aborted = str(e)
                 out.inconclusive.append("C18 schedule %s/%s (%s): %s" % (sched.get("seed"), sched.get("index"), sched["variant"], e))
+                if rig.daemon_alive():
+                    # a wait on a *living* daemon expired: by itself no verdict (wall clock), but see run_c18_schedule
+                    self.blocked = {"tick": rig.ticks, "op": self.op_index, "what": str(e),
+                                    "stalled": [c.name for c in self.readers() if c.stalled]}
             self.finish()
         finally:
             rig.close()
@@ -1362,6 +1417,14 @@ class C18Controller:
         for c in self.procs:
             errs[c.name] = c.finish()
         died_early = not rig.daemon_alive()
+        # One cause, one finding: when the daemon ended by itself (abort, sanitizer report, crash) that
+        # is the violation; frames which nobody could deliver after its death, connections it dropped by
+        # dying and a device it never closed are consequences and are not reported on top of it.  What
+        # the clients *did* receive is still checked in full, and so is everything up to the last
+        # lock-step frame that was delivered completely (the daemon provably lived until then).
+        self.daemon_died = died_early
+        if died_early:
+            out.count("schedules_daemon_died")
         rc = rig.stop_daemon()
         text = rig.daemon_stderr()
         found = classify_sanitizer(text, self.repo, out.counters)
@@ -1460,14 +1523,16 @@ class Monitor:
             got[c.name] = self.check_stream(c, by_ts, ref, refraw)
 
         # -- completeness in lock-step
+        died = self.ctl.daemon_died
+        horizon = self.ctl.last_ok_tick
         for e in self.ctl.ctl:
             if e["k"] == "tick" and e["lock"]:
+                if died and e["seq"] > horizon:
+                    out.count("ticks_not_judged_daemon_dead")
+                    continue
                 for name in e["expect"]:
                     out.count("lockstep_deliveries_expected")
                     if e["seq"] not in got.get(name, ()):
-                        c = [x for x in self.ctl.procs if x.name == name][0]
-                        if c.killed and e["seq"] > c.max_seq and False:
-                            continue
                         self.v("model:C18:lost-frame",
                                "client %s kept up and was subscribed, but never received frame %d (captured, %s); "
                                "frames it has around: %s" % (name, e["seq"], "in device trace" if e["seq"] in by_seq else "NOT in device trace",
@@ -1476,6 +1541,9 @@ class Monitor:
         for c in self.ctl.procs:
             for ev in c.events:
                 if ev.get("ev") == "error":
+                    if died and ev.get("_tick", 0) > horizon:
+                        out.count("client_errors_not_judged_daemon_dead")
+                        continue
                     self.v("model:C18:client-dropped", "client %s lost its connection in %s (errno %s) at tick %d"
                            % (c.name, ev.get("where"), ev.get("errno"), ev.get("_tick", -1)))
                 elif ev.get("ev") in ("garbage", "badcmd"):
@@ -1511,6 +1579,11 @@ class Monitor:
                     self.v("model:C18:duplicate-frame", "client %s received frame %d twice" % (c.name, s))
                 elif s < last:
                     self.v("model:C18:reordered-frame", "client %s received frame %d after frame %d" % (c.name, s, last))
+                elif last >= 0 and s > last + 1:
+                    # permitted only for a stalled client, across its own service change, a channel
+                    # flush, or while no tick was sent to an open device; the lock-step completeness
+                    # rule below decides, this is evidence that queue overflow was exercised
+                    out.count("frames_skipped_in_client_streams", s - last - 1)
                 last = max(last, s)
                 seqs.add(s)
                 want = filter_lines(f["L"], G)
@@ -1564,11 +1637,35 @@ class Monitor:
 
 def run_c18_schedule(repo, sched):
     out = Outcome()
+    ctl = None
     try:
-        C18Controller(repo, sched, out).run()
+        ctl = C18Controller(repo, sched, out)
+        ctl.run()
     except Exception as e:            # controller bug or environment trouble: never a verdict
         import traceback
         out.harness_errors.append("C18 controller: %s\n%s" % (e, traceback.format_exc()[-1500:]))
+    if ctl is not None and ctl.blocked and not out.violations and not out.harness_errors:
+        # "never blocks": one expired watchdog is no verdict (the wall clock is not part of the rig's
+        # model).  The schedule is run again; only when the living daemon stops delivering at the very
+        # same operation and virtual time again, the standstill belongs to the schedule, not the machine.
+        out2 = Outcome()
+        ctl2 = None
+        try:
+            ctl2 = C18Controller(repo, sched, out2)
+            ctl2.run()
+        except Exception as e:
+            out.harness_errors.append("C18 controller (re-run): %s" % e)
+        b1, b2 = ctl.blocked, (ctl2.blocked if ctl2 is not None else None)
+        if b2 and b1["op"] == b2["op"] and b1["tick"] == b2["tick"] and not out2.violations:
+            out.inconclusive = [m for m in out.inconclusive if b1["what"] not in m]
+            out.violation("model:C18:delivery-blocked",
+                          "in two runs of the schedule the daemon, alive, stopped delivering at operation %d, tick %d: %s; "
+                          "clients told not to read at that time: %s"
+                          % (b1["op"], b1["tick"], b1["what"], ",".join(b1["stalled"]) or "none"), ctl.extra())
+        else:
+            for v in out2.violations:
+                out.violations.append(v)
+            out.count("blocked_schedules_not_reproduced")
     if not out.samples:
         ops = sched["ops"]
         out.samples.append({"schedule": "%s/%s %s %s" % (sched.get("seed"), sched.get("index"), sched["variant"], sched.get("profile")),
